@@ -23,14 +23,11 @@ CertOK(M, lab, c) ==
       A == SubRows(M, rs)
   IN IF c.spans THEN Len(c.w) = Len(rs) /\ Len(rs) > 0 /\ VecMat(c.w, A) = E0(NCols(M))
      ELSE Len(c.w) = NCols(M) /\ c.w[1] = 1 /\ \A k \in 1..Len(rs) : Dot(A[k], c.w) = 0
-CertsOf(tag) == {Trace[l].certs[k] : k \in {k \in 1..Len(Trace[l].certs) : Trace[l].certs[k].tag = tag}}
-TagOf(M, lab) == IF "MU" \in DOMAIN Trace[l] /\ M = Trace[l].MU /\ lab = Trace[l].labU THEN "mu"
-                 ELSE IF ep.live /\ M = ep.M /\ lab = ep.lab /\ Trace[l].a # "redistR2" THEN "cur" ELSE
-                 IF Trace[l].a = "deal" THEN "cur" ELSE "next"
+\* any certificate of the current line for the set S that checks against (M, lab) decides; a valid "spans" and a valid
+\* "not spans" certificate cannot both exist for the same rows
 SpansByCert(M, lab, S) ==
-  LET cs == {c \in CertsOf(TagOf(M, lab)) : SeqToSet(c.set) = S}
-      c == CHOOSE c \in cs : TRUE
-  IN IF cs # {} /\ CertOK(M, lab, c) THEN c.spans
+  LET cs == {k \in 1..Len(Trace[l].certs) : SeqToSet(Trace[l].certs[k].set) = S /\ CertOK(M, lab, Trace[l].certs[k])}
+  IN IF cs # {} THEN Trace[l].certs[CHOOSE k \in cs : TRUE].spans
      ELSE Assert(FALSE, <<"missing or invalid span certificate (harness bug)", l, S>>)
 
 \* ---- projections of logged shards ----
@@ -54,6 +51,25 @@ TraceDeal ==
   /\ LET s == AnyShard(Ev.shards) IN
        /\ MSPRealises(s.M, s.lab, Ev.pol)
        /\ Deal(Ev.pol, s.M, s.lab, s.vv)
+  /\ ShardsMatch(Ev.shards, ep')
+
+\* distributed key generation: the dealing columns are the broadcast Feldman vectors; shares on the wire and (Gennaro) the
+\* Pedersen vectors must be consistent with them; all parties end with the same key material = the sum of the dealings
+TraceDKG ==
+  /\ IsEv("dkg")
+  /\ Ev.ok                                  \* an honest DKG terminates
+  /\ LET s == AnyShard(Ev.shards)
+         H == Holders(s.lab)
+         c == [i \in H |-> Ev.cols[K(i)]]
+     IN /\ MSPRealises(s.M, s.lab, Ev.pol)
+        /\ DKG(Ev.pol, s.M, s.lab, c)
+        /\ \A i \in H : \A j \in H \ {i} : Ev.sub[K(i)][K(j)] = ShareOf(s.M, s.lab, c[i], j)
+        /\ Ev.proto = "gennaro" =>
+              \A i \in H : \A j \in H \ {i} :
+                 LET rs == RowsOf(s.lab, j) IN
+                 /\ Len(Ev.blind[K(i)][K(j)]) = Len(rs)
+                 /\ \A a \in 1..Len(rs) :     \* M_row . pvv_i = s + eta t   (Pedersen verification, in the exponent)
+                      Dot(s.M[rs[a]], Ev.pvv[K(i)]) = Add(Ev.sub[K(i)][K(j)][a], Mul(Ev.eta, Ev.blind[K(i)][K(j)][a]))
   /\ ShardsMatch(Ev.shards, ep')
 
 \* a refused dealing must be one the library may refuse: never for a policy with >= 2 holders none of which is
@@ -131,9 +147,51 @@ TraceMix ==
         /\ (\A i \in S : sh[i] = ep.sh[i]) => Ev.v = x0
   /\ UNCHANGED <<ep, prevEp, pend, x0>>
 
+\* threshold signing (Lindell22, generic Schnorr variant). 1/q events of the toy group are guards, as the code has them:
+\* identity public key (shard refused), an effective partial public key that is the identity (documented ABORT, retry),
+\* a zero aggregated response or identity aggregated nonce (signature object refused / fails verification).
+SignRun ==
+  LET Qm == SetOf(Ev.Q)
+      cS == [i \in Qm |-> Ev.cS[K(i)]]
+      cU == [i \in Qm |-> Ev.cU[K(i)]]
+      z == [i \in Qm |-> Ev.z[K(i)]]
+      k == [i \in Qm |-> Ev.k[K(i)]]
+      a == [i \in Qm |-> AdditiveKeyShare(Qm, cS, cU, Ev.MU, Ev.labU, z, i)]
+      degenerate == \E i \in Qm : a[i] = 0
+  IN /\ CoeffOK(ep.M, ep.lab, Qm, cS) /\ CoeffOK(Ev.MU, Ev.labU, Qm, cU)
+     /\ \A i \in Qm : K(i) \in DOMAIN Ev.z /\ z[i][1] = 0
+     /\ SumOver(a, Qm) = x0
+     /\ IF degenerate THEN ~Ev.ok /\ \A r \in SeqToSet(Ev.rejects) : r.abort /\ r.blamed = <<>> /\ ~r.panic /\ ~r.timeout
+        ELSE /\ Ev.ok
+             /\ \A i \in Qm : k[i] # 0
+             /\ LET R == SumOver(k, Qm)
+                    e == Ev.e
+                    s == [i \in Qm |-> PartialResponse(k[i], e, a[i])]
+                    S == SumOver(s, Qm)
+                IN /\ \A i \in Qm : Ev.psig[K(i)] = [R |-> k[i], S |-> s[i], E |-> e]
+                   /\ Len(Ev.sigs) = Cardinality(Qm) + 1
+                   /\ \A n \in 1..Len(Ev.sigs) :
+                        LET sg == Ev.sigs[n] IN
+                        IF S = 0 \/ R = 0 \/ (sg.agg = "cosigning" /\ \E i \in Qm : s[i] = 0)
+                        THEN ~sg.ok
+                        ELSE /\ sg.ok /\ sg.R = R /\ sg.S = S /\ sg.E = e
+                             /\ SchnorrVerifies(R, S, e, x0)              \* the specification is the independent verifier
+                             /\ sg.verifyLib
+                             /\ sg.verifyOther = SchnorrVerifies(R, S, sg.eOther, x0)
+TraceSign ==
+  /\ IsEv("sign")
+  /\ ep.live
+  /\ LET Qm == SetOf(Ev.Q) IN
+       CASE Ev.stage = "tooSmall" -> Cardinality(Qm) < 2
+         [] Ev.stage = "shard" -> x0 = 0
+         [] Ev.stage = "constructor" -> x0 # 0 /\ Cardinality(Qm) >= 2 /\ ~Spans(ep.M, ep.lab, Qm)
+         [] Ev.stage = "run" -> x0 # 0 /\ Cardinality(Qm) >= 2 /\ Spans(ep.M, ep.lab, Qm) /\ SignRun
+         [] OTHER -> FALSE
+  /\ UNCHANGED <<ep, prevEp, pend, x0>>
+
 TraceHdr == IsEv("hdr") /\ UNCHANGED <<ep, prevEp, pend, x0>>
 
-TraceNext == TraceHdr \/ TraceReset \/ TraceDeal \/ TraceDealRefused \/ TraceR1 \/ TraceRefused \/ TraceR2 \/ TraceR3
+TraceNext == TraceHdr \/ TraceReset \/ TraceDeal \/ TraceDKG \/ TraceSign \/ TraceDealRefused \/ TraceR1 \/ TraceRefused \/ TraceR2 \/ TraceR3
              \/ TraceReconstruct \/ TraceMix
 TraceInit == Init /\ l = 1
 TraceSpec == TraceInit /\ [][TraceNext]_tvars
